@@ -61,6 +61,7 @@ def exe_worker(job):
     bad = []
     n = 0
     nbytes = 0
+    partial = 0
     statuses = {}
     for tag, blob, inp, files in recs:
         outs = []
@@ -71,25 +72,26 @@ def exe_worker(job):
             for k, data in files.items():
                 open(os.path.join(d, "simin%d" % k), "wb").write(data)
             cmd = [os.path.join(cli, tool)] + (["+verilator+seed+7", "--max-cycles", "3000000"] if tool == "hextb" else ["--max-cycles", "3000000"]) + [p]
-            try:
-                r = subprocess.run(cmd, input=inp, stdout=subprocess.PIPE, stderr=subprocess.PIPE, cwd=d, timeout=180)
-                out, rc, err = r.stdout, r.returncode, r.stderr
-            except subprocess.TimeoutExpired:
-                out, rc, err = b"", "timeout", b""
+            # standard input is a regular file: what the process leaves of it for the next reader is observable
+            rc, out, err, left_at = common.run_file_stdin(cmd, inp, cwd=d, timeout=180)
             if tool == "hextb":
                 banner, _, out = out.partition(b"\n")
                 if not banner.startswith(b"Wrote "):
                     out = banner + b"\n" + out
-            outs.append((out, rc, snapshot(d), err[:200]))
+            outs.append((out, rc, (snapshot(d), left_at), err[:200]))
             import shutil
             shutil.rmtree(d, ignore_errors=True)
         n += 1
         nbytes += len(outs[0][0])
         statuses[outs[0][1]] = statuses.get(outs[0][1], 0) + 1
         if outs[0][:3] != outs[1][:3]:
-            what = "stdout" if outs[0][0] != outs[1][0] else ("status" if outs[0][1] != outs[1][1] else "files")
-            bad.append((what, {"tag": tag, "input_hex": inp.hex(), "hexsim": [repr(outs[0][0][:80]), outs[0][1], repr(outs[0][3])],
-                               "hextb": [repr(outs[1][0][:80]), outs[1][1], repr(outs[1][3])]}))
+            what = "stdout" if outs[0][0] != outs[1][0] else ("status" if outs[0][1] != outs[1][1] else
+                                                             ("files" if outs[0][2][0] != outs[1][2][0] else "input-consumed"))
+            bad.append((what, {"tag": tag, "input_hex": inp.hex(), "hexsim": [repr(outs[0][0][:80]), outs[0][1], repr(outs[0][3]), outs[0][2][1]],
+                               "hextb": [repr(outs[1][0][:80]), outs[1][1], repr(outs[1][3]), outs[1][2][1]]}))
+        if outs[0][2][1] is not None and outs[0][2][1] < len(inp):
+            partial += 1
+    statuses["__partial__"] = partial
     return n, nbytes, bad, statuses
 
 
@@ -141,6 +143,7 @@ def run(tier, replay=None):
         v.cov["evaluations"] += n
         v.count("executable_pairs", n)
         v.count("stdout_bytes_compared", nbytes)
+        v.count("runs_that_left_part_of_their_input_unread", statuses.pop("__partial__", 0))
         for k, c in statuses.items():
             v.hist("exit_statuses_seen", k, c)
         for what, rep in bad:
